@@ -13,6 +13,9 @@ endif
 ifeq ($(FLAVOUR),longhuff)
 FLAVOUR_DEFS := -DLONGER_HUFFTABLE
 endif
+ifeq ($(FLAVOUR),cov)
+SANLD := --coverage
+endif
 ifeq ($(FLAVOUR),asan)
 CXXFLAGS += -fsanitize=address -fno-omit-frame-pointer
 SANLD := -fsanitize=address
